@@ -1082,13 +1082,17 @@ def splice_fn(text: str, sp: Splice, item: str, vacuity: bool = False) -> str:
         # W4b: Verus closures take plain variables only.  A header may be followed by lines `let PATTERN = NAME;` that
         # destructure a parameter at the start of the body: `|(a, b)| E` is spliced as `|p: T| -> .. { let (a, b) = p; E }`
         lines = hdr_text.strip().split("\n")
-        lets = [l.strip() for l in lines if l.strip().startswith("let ")]
-        return "\n".join(l for l in lines if not l.strip().startswith("let ")), lets
+        # (a line `proof { .. }` is put at the start of the body in the same way and binds nothing)
+        pro = lambda l: l.strip().startswith("let ") or l.strip().startswith("proof {")
+        lets = [l.strip() for l in lines if pro(l)]
+        return "\n".join(l for l in lines if not pro(l)), lets
     def _param_names(hdr_text: str) -> List[str]:
         # names bound by a closure header `|a, (b, c): T, mut d|` (types dropped)
         hdr_text, lets = _split_hdr(hdr_text)
         names = _param_names0(hdr_text)
         for l in lets:
+            if l.startswith("proof {"):
+                continue
             m = re.fullmatch(r"let\s+(.*?)\s*=\s*([A-Za-z_][A-Za-z0-9_]*)\s*;", l)
             if not m:
                 raise ExtractError(f"{item}: malformed closure prologue `{l}`")
